@@ -51,8 +51,13 @@ def rule_ambient_j2(ctx, ts):
         aliases = _audit_aliases(ts, t)
         safe_wrapped = set()
         for node in t.ast.find_all(N.Getattr):
-            if node.attr in SAFE_PATH_ATTRS and isinstance(node.node, N.Getattr) and node.node.attr == "source_file_path":
-                safe_wrapped.add(id(node.node))
+            # source_file_path(.parent)*.(name|stem|suffix) is location independent
+            if node.attr in SAFE_PATH_ATTRS:
+                inner = node.node
+                while isinstance(inner, N.Getattr) and inner.attr == "parent":
+                    inner = inner.node
+                if isinstance(inner, N.Getattr) and inner.attr == "source_file_path":
+                    safe_wrapped.add(id(inner))
         for node, stack in j2front.walk(t.ast):
             taint = None
             if isinstance(node, N.Name) and node.name == "now_utc" and node.ctx == "load":
